@@ -568,9 +568,17 @@ func r16_5(c *Ctx) {
 	r := fn.Params[1]
 	name := fnLabel(fn)
 	var lk *ssa.Lookup
-	eachInstr(fn, func(in ssa.Instruction) {
+	isReq := func(b ssa.Value) bool {
+		for _, s := range sources(b) {
+			if s != ssa.Value(r) {
+				return false
+			}
+		}
+		return true
+	}
+	eachInstrDeep(fn, func(in ssa.Instruction) {
 		if l, ok := in.(*ssa.Lookup); ok {
-			if b, ok := isFieldLoad(l.X, "http.Request", "Header"); ok && b == ssa.Value(r) {
+			if b, ok := isFieldLoad(l.X, "http.Request", "Header"); ok && isReq(b) {
 				lk = l
 			}
 		}
@@ -600,7 +608,7 @@ func r16_5(c *Ctx) {
 	}
 	// NewID(h[0]) guarded by len != 0 && != ""
 	var nid *ssa.Call
-	eachInstr(fn, func(in ssa.Instruction) {
+	eachInstrDeep(fn, func(in ssa.Instruction) {
 		if call, ok := isModCall(in, "NewID"); ok {
 			nid = call
 		}
@@ -756,7 +764,7 @@ func r05_1(c *Ctx) {
 		}
 	})
 	serverKey := ""
-	eachInstr(up, func(in ssa.Instruction) {
+	eachInstrDeep(up, func(in ssa.Instruction) {
 		if l, ok := in.(*ssa.Lookup); ok {
 			if _, ok := isFieldLoad(l.X, "http.Request", "Header"); ok {
 				serverKey, _ = constString(l.Index)
